@@ -327,6 +327,12 @@ class Ctx(object):
         self.per_clause = {}
         self.t0 = time.time()
         self.rng = random.Random(seed)
+        self.only = None
+
+    def want(self, clause):
+        """False when --only was given and does not name this clause (debugging aid)."""
+        only = getattr(self, "only", None)
+        return (not only) or clause in only
 
     @property
     def quick(self):
